@@ -19,6 +19,7 @@
 #include <stdlib.h>
 #include <string.h>
 
+#include <atomic>
 #include <condition_variable>
 #include <deque>
 #include <memory>
@@ -102,10 +103,11 @@ struct Known {
   // F4: Futex::wake_one clears node->next before using it to advance: it stops behind the first
   //     waiter it cannot take (its canceller already owns it) and returns 0 with waiters queued.
   bool known_f4_wake_one_stops_at_cancelled_node() const { return !allow_f4; }
-  // F4b: await_suspend calls _on_suspend after add_awaiter made the node visible: a waker may
-  //     resume (and destroy) the coroutine first, the callback object is then read after free.
-  //     Guard: wake calls and the registration window of a wait that carries a callback exclude
-  //     each other (harness gate).
+  // F4b: await_suspend reads/calls _on_suspend after add_awaiter made the node visible: a waker may
+  //     resume (and destroy) the coroutine first, the awaitable is then read after free (a later
+  //     awaitable of the same coroutine reuses its frame slot: a foreign callback runs, or runs twice).
+  //     Guard: wake calls and the registration window of a futex wait (co_await entry until
+  //     await_suspend cannot touch the awaitable any more) exclude each other (harness gate).
   bool known_f4_on_suspend_after_visible() const { return !allow_f4b; }
   // (suspected, not guarded because this engine cannot reach it: Futex::wake_all reads node->next after
   //  finish_released(node->id); there is no schedule point between the release CAS and that plain load)
@@ -318,7 +320,11 @@ struct World {
   std::deque<WaitRec> waits;  // deques: records are referenced across schedule points
   std::deque<WakeRec> wakes;
   std::deque<CancelRec> cancels;
-  std::vector<int> published;  // per waiter: index of the wait whose token was published last, -1
+  // token hand-over to the cancelling threads: release store / acquire load, so that the canceller is
+  // ordered after the emplace that produced the token (a real timer queue gives the same edge; without
+  // it weak mode lets the canceller index the deposit box through a stale block table)
+  std::atomic<int> published[8];  // A: per waiter: index of the wait whose token was published last, -1
+  std::atomic<int> btoken[8];     // B: per outer: 1 once its token is published
   std::mutex gate;             // registration gate (known_f4_on_suspend_after_visible guard)
   int wakes_in_flight = 0;
 
@@ -359,7 +365,9 @@ int begin_wait(int idx, int k) {
   r.k = k;
   r.expected = p.expected;
   r.cbmode = p.cbmode;
-  bool need_gate = p.cbmode != CB_NONE && gate_waits_with_callback();
+  // every wait: await_suspend reads _on_suspend after add_awaiter whether or not a callback was set, and the
+  // frame slot of a destroyed awaitable is reused by the next co_await of the same coroutine
+  bool need_gate = gate_waits_with_callback();
   // a wait that starts inside this thread's own gated window (resumed inline by the wake call or
   // by a cancel inside the callback) is already protected from the other threads
   bool take = need_gate && !tl_gate_owned;
@@ -425,7 +433,7 @@ struct FutexCb {
     if (r.cbmode == CB_CANCEL_INSIDE) {
       do_cancel_A(lri, true);
     } else {
-      lw->published[(size_t)r.waiter] = lri;
+      lw->published[(size_t)r.waiter].store(lri, std::memory_order_release);
     }
     lw->waits[(size_t)lri].t_cb_end = lw->now();
     release_gate_if_held(lri);
@@ -594,7 +602,7 @@ struct CancelCb {
     dsched::point();
     World* lw = w;  // cancel() inside may destroy this object (inline executor): no member access after it
     if (p.cbmode == CB_CANCEL_INSIDE) do_cancel_B(oi, true);
-    else r.has_token = true;
+    else { r.has_token = true; w->btoken[(size_t)oi].store(1, std::memory_order_release); }
     r.t_cb_end = lw->now();
   }
 };
@@ -704,16 +712,28 @@ void run_actor(int ai) {
         if (w->scenario == 0) launch_A(op.arg); else launch_B(op.arg);
         break;
       case A_SETGATE: do_setgate(op.arg); break;
-      case A_CANCEL:
-        if (w->scenario == 0) {
-          int wi = w->published[(size_t)op.arg];
-          if (wi < 0) { dsched::label("cancel_no_token_yet"); dsched::yield_point(); break; }
-          do_cancel_A(wi, false);
-        } else {
-          if (!w->orec[(size_t)op.arg].has_token) { dsched::label("cancel_no_token_yet"); dsched::yield_point(); break; }
-          do_cancel_B(op.arg, false);
+      case A_CANCEL: {
+        // prefer the named coroutine's token; fall back to any published token; give the waiters a
+        // few chances to publish one before giving up
+        int n = w->scenario == 0 ? (int)w->waiters.size() : (int)w->outers.size();
+        int found = -1, found_wait = -1;
+        for (int attempt = 0; attempt < 3 && found < 0; attempt++) {
+          for (int pass = 0; pass < 2 && found < 0; pass++)  // pass 0: a wait still pending, pass 1: any (stale) token
+            for (int d = 0; d < n && found < 0; d++) {
+              int i = (op.arg + d) % n;
+              int pub = w->scenario == 0 ? w->published[(size_t)i].load(std::memory_order_acquire)
+                                         : w->btoken[(size_t)i].load(std::memory_order_acquire) - 1;
+              if (pub < 0) continue;
+              bool pending = w->scenario == 0 ? w->waits[(size_t)pub].t_resumed == 0 : w->orec[(size_t)i].resumed == 0;
+              if (pending || pass == 1) { found = i; found_wait = pub; }
+            }
+          if (found < 0) dsched::yield_point();
         }
+        if (found < 0) { dsched::label("cancel_no_token_yet"); break; }
+        if (w->scenario == 0) do_cancel_A(found_wait, false);
+        else do_cancel_B(found, false);
         break;
+      }
     }
     dsched::point();
   }
@@ -758,7 +778,6 @@ void run_A(Chooser& c) {
   w->co.resize((size_t)nw);
   w->futures.resize((size_t)nw);
   w->has_future.assign((size_t)nw, false);
-  w->published.assign((size_t)nw, -1);
   w->actors.resize((size_t)nact);
   dsched::describe("A futex v0=%lu;", (unsigned long)v0);
   static char names[8][24];
@@ -894,8 +913,9 @@ void run_A(Chooser& c) {
       if (w->waits[i].has_token && w->waits[j].has_token && (uint32_t)w->waits[i].bits == (uint32_t)w->waits[j].bits) slot_reused = true;
   for (auto& r : w->waits)
     for (auto& k : w->wakes) {
-      uint64_t reg_end = r.t_cb_begin ? r.t_cb_begin : r.t_resumed;
-      if (overlap(r.t_enter, reg_end, k.t_begin, k.t_end)) wait_overlaps_wake = true;
+      // the end of the registration is observable only through the callback; with the default gate this
+      // happens for waits registered inside a wake call (coroutine resumed inline by that very wake)
+      if (r.t_cb_begin && overlap(r.t_enter, r.t_cb_begin, k.t_begin, k.t_end)) wait_overlaps_wake = true;
     }
   if (cancel_overlaps_wake) dsched::label("cancel_overlaps_wake");
   if (slot_reused) dsched::label("slot_reused");
@@ -960,9 +980,9 @@ void run_BC(Chooser& c, bool cancellable) {
     if (p.inner_exec >= 0 && p.inner_exec != p.exec) dsched::label("cross_executor");
   }
   for (int a = 0; a < nact; a++) {
-    int nops = c.range(1, 3);
+    int nops = c.range(1, 4);
     for (int j = 0; j < nops; j++) {
-      static const AOp kb[] = {A_CANCEL, A_YIELD, A_CANCEL, A_YIELD};
+      static const AOp kb[] = {A_CANCEL, A_CANCEL, A_CANCEL, A_YIELD};
       static const AOp kc[] = {A_YIELD, A_YIELD};
       ActOp op{cancellable ? c.pick(kb) : c.pick(kc), 0};
       if (op.op == A_CANCEL) op.arg = (int)c.below((uint32_t)no);
@@ -1055,6 +1075,8 @@ void run_BC(Chooser& c, bool cancellable) {
 void run_case(Chooser& c) {
   World world;
   W = &world;
+  for (auto& a : world.published) a.store(-1, std::memory_order_relaxed);
+  for (auto& a : world.btoken) a.store(0, std::memory_order_relaxed);
   tl_serial = 0;
   tl_gate_owned = false;
   tl_gate_wait = -1;
